@@ -16,6 +16,7 @@ EXPLANATION = (
     "session instances, closes every tracked resource under its own suppression and then clears the set, never propagates a "
     "socket error, and returns early only for keep_open."
     'Also decided: close() really closes the socket; tracked resources are per connection. '
+    "Also decided (round 7): Calls on user objects (a stream entry's iterator) before the disconnect hook count as code that may raise; current_context.client is this request's connection before any user code of the request runs (resources are filed under it). "
     "Not decided: counts observed at run time, byte offsets."
 )
 
